@@ -2050,6 +2050,22 @@ static bool ts_query__analyze_patterns(TSQuery *self, unsigned *error_offset) {
     }
   }
 
+  // An anchored step has to match the very next node (or the first child). The analysis does
+  // not model extras, which can occur in front of any node, so such a step can always fail.
+  for (unsigned i = 0; i < self->steps.size; i++) {
+    QueryStep *step = array_get(&self->steps, i);
+    if (
+      step->is_immediate &&
+      step->depth != PATTERN_DONE_MARKER &&
+      step->depth > 0 &&
+      !step->is_dead_end &&
+      !step->is_pass_through
+    ) {
+      step->parent_pattern_guaranteed = false;
+      step->root_pattern_guaranteed = false;
+    }
+  }
+
   // A step is only guaranteed within its parent pattern if its subsequent sibling steps and
   // its own child steps are. So if a step is fallible, then so are its preceding siblings,
   // the step that contains it, that step's preceding siblings, and so on.
